@@ -217,8 +217,12 @@ def check_property(pid, tier, seed, jobs=None):
         native.ensure_repo_on_path()
         b = mod.bounded(ctx)
         run.bounded = {k: v for k, v in b.items() if k != "failures"}
+        seen_b = set()
         for f in b.get("failures", []):
             oid = f"{pid}/bounded/{f['label']}"
+            if oid in seen_b:
+                continue  # one violation (the first failing case) per bounded clause
+            seen_b.add(oid)
             path = write_replay(pid, oid, {"property": pid, "obligation": oid, "kind": "failing-input", "case": f.get("case"), "observed": f.get("observed"), "how_to_run": f"./check {pid} --replay <this file>"})
             run.violations.append({"obligation": oid, "replay": path, "what": f"bounded: {f['label']}: {str(f.get('observed'))[:200]}", "no_input": False})
     if hasattr(mod, "ASSUMPTIONS"):
